@@ -521,7 +521,8 @@ def rule_tokens(ctx, rep):
         except PyRaise as e:
             got = f"RAISES {e.exc}"
         rep.check(got is None, rule, f"no instruction for {line!r}", where, repr(got), None)
-    for line in ('byte "abc', "byte xyz", "byte base64", "byte b32(AA", "pushbytes"):
+    for line in ('byte "abc', "byte xyz", "byte base64", "byte b32(AA", "pushbytes", "byte b64", "byte base32", "byte b64(AA==", "byte base64(AA", "byte 0x01 0x02",
+                 "pushbytes b32", "method", "lbl: int 1", 'byte "a"b', "pushbytess b64"):
         try:
             o = w.call(pl, line)
             got = "accepted as " + (o.cls.name if isinstance(o, Obj) else repr(o))
